@@ -15,16 +15,16 @@ import (
 // Anchors: the exported func types Middleware and HandlerFunc; slice fields of type []Middleware;
 // the dispatcher = the function doing the comma-ok lookup in the method dispatch table.
 //
-//   R-onion-build       the chain builder walks the middleware slice from last to first, each step
-//                       wrapping the accumulated handler; its result is built from its argument only
-//                       (no cached chain); registration appends at the end; pending ones are applied forward
-//   R-once-through      the request entry calls the built chain once (no loop), built from a closure of this
-//                       invocation; dispatcher call sites are pairwise unreachable from one another
-//   R-own-request       the core closure dispatches ITS OWN ctx/req parameters
-//   R-no-bypass         HTTP transports reach dispatch targets only through the request entry; the
-//                       notification path never touches middleware state
-//   R-result-identity   what the transports wrap into the response is the value the entry returned
-//   R-own-context       the context handed to the dispatcher derives from the request's own context
+//	R-onion-build       the chain builder walks the middleware slice from last to first, each step
+//	                    wrapping the accumulated handler; its result is built from its argument only
+//	                    (no cached chain); registration appends at the end; pending ones are applied forward
+//	R-once-through      the request entry calls the built chain once (no loop), built from a closure of this
+//	                    invocation; dispatcher call sites are pairwise unreachable from one another
+//	R-own-request       the core closure dispatches ITS OWN ctx/req parameters
+//	R-no-bypass         HTTP transports reach dispatch targets only through the request entry; the
+//	                    notification path never touches middleware state
+//	R-result-identity   what the transports wrap into the response is the value the entry returned
+//	R-own-context       the context handed to the dispatcher derives from the request's own context
 func init() { Registry["C15"] = checkC15 }
 
 func checkC15(c *Ctx) {
